@@ -15,6 +15,15 @@ func vxKey(p string, n int) string {
 	return vxStr(p+".head", 40) + strings.Repeat("m", n-43) + vxStr(p+".tail", 3)
 }
 
+// vxKeyLite: for the pair queries - keys up to 40 bytes fully symbolic; longer keys have
+// symbolic bytes 0..2, 32..39 (across the first fragment boundary) and the last 3.
+func vxKeyLite(p string, n int) string {
+	if n <= 40 {
+		return vxStr(p, n)
+	}
+	return vxStr(p+".h", 3) + strings.Repeat("m", 29) + vxStr(p+".b", 8) + strings.Repeat("m", n-43) + vxStr(p+".tail", 3)
+}
+
 // VxC14_NameRoundTrip: the key is recovered from its file name, for keys of every
 // boundary length and arbitrary bytes.
 // vxKeyLensDense: every length whose encoding is around or beyond the 255-character
@@ -47,7 +56,7 @@ func VxC14_NamePrefixFree() {
 	if n2 < n1 {
 		vxStop()
 	}
-	k1, k2 := vxKey("k1", n1), vxKey("k2", n2)
+	k1, k2 := vxKeyLite("k1", n1), vxKeyLite("k2", n2)
 	vxAssume(k1 != k2)
 	f1, f2 := fragmentFileName(k1), fragmentFileName(k2)
 	vxCover("C14/pair")
